@@ -1,19 +1,27 @@
 (** C16 — Unchanged data is not re-sent: matches are found at every byte
-    offset.  Statements only; proofs in Proofs/SearchInv.v, Proofs/Identical.v.
+    offset.  Statements only; proofs in Proofs/SearchInv.v, Proofs/Identical.v,
+    Proofs/EditBound.v.
 
-    Proved here: the rolling registers equal the weak checksum of the current
-    window at *every* offset the search visits ([rolling_invariant]), the
-    per-offset lookup has no false negatives ([no_false_negative]), and an
-    identical file is sent as references only ([identical_costs_nothing]),
-    for all sizes, block lengths, strong lengths and hashes.
+    Proved here, for all sizes, block lengths, strong lengths and hashes:
+    the rolling registers equal the weak checksum of the current window at
+    *every* offset the search visits ([rolling_invariant]); the per-offset
+    lookup has no false negatives ([no_false_negative]); an identical file is
+    sent as references only ([identical_costs_nothing]); the literal bytes
+    sent are at most the positions of the file not covered by a listed block
+    standing at some byte offset ([literal_bound_by_uncovered]); and for a
+    file that is the receiver's copy after an edit script, the literal bytes
+    are at most the new bytes plus less than two block lengths per unedited
+    stretch ([edit_bound]).
 
-    NOT proved (kept visible, checked only by the harness oracle on the real
-    sender): edit_bound — for a target that is the basis with e local edits,
-    literal bytes <= edited bytes + 2 * blen * (e + 1).  The missing piece is
-    the straddling-match argument (re-synchronisation after an edit). *)
-From Coq Require Import ZArith List Bool FMapPositive.
+    The two bounds carry the hypothesis the property's quantifier states as
+    "high-entropy": no window of the new file has, by accident, the weak and
+    strong sums of a block it is not a copy of ([no_accident]).  Without it
+    the bound is false of any greedy matcher (periodic data lets a misaligned
+    match shadow the aligned ones), for rsync's own sender too. *)
+From Coq Require Import ZArith List Bool Lia FMapPositive.
 From RV Require Import Model.Bytes Model.Md4 Model.Checksum Model.Delta Model.Sender
-     Proofs.BytesProofs Proofs.ChecksumProofs Proofs.SenderProofs Proofs.SearchInv Proofs.Identical.
+     Proofs.BytesProofs Proofs.ChecksumProofs Proofs.SenderProofs Proofs.SearchInv Proofs.Identical
+     Proofs.EditBound.
 Import ListNotations.
 Open Scope Z_scope.
 
@@ -94,8 +102,87 @@ Example unaligned_match_example :
   exists tr, send_one md4 5 262144 ex_h ex_sums (99 :: ex_data) = SOk ex_h [Lit [99]; Ref 0; Ref 1; Ref 2] tr.
 Proof. eexists. vm_compute. reflexivity. Qed.
 
+(** Literal bytes are bounded by the uncovered positions.  [start] marks
+    offsets of the new file where a full-length listed block stands (S1), it
+    contains every offset where such a block's sums match (S2: no accidental
+    match elsewhere), and starts are a block length apart (S3); [freeb p] says
+    that p lies in [o, o + blen) for a start o.  Then the literal bytes of the
+    transmission number at most the non-free positions of the file. *)
+Theorem literal_bound_by_uncovered :
+  forall (H : list Z -> list Z) seed chunk, 1 <= chunk ->
+  forall h sums target, 1 <= h_blen h -> 0 <= h_rem h <= h_blen h ->
+  forall start : Z -> bool,
+    (forall o, start o = true ->
+       0 <= o /\ o + h_blen h <= lenZ target /\
+       exists i, 0 <= i /\ block_len h i = h_blen h /\
+         nth_error sums (Z.to_nat i) =
+         Some (checksum1 (window h target o), strong H seed h (window h target o))) ->
+    (forall p i, 0 <= p -> p + h_blen h <= lenZ target -> 0 <= i -> block_len h i = h_blen h ->
+       nth_error sums (Z.to_nat i) =
+       Some (checksum1 (window h target p), strong H seed h (window h target p)) -> start p = true) ->
+    (forall o o', start o = true -> start o' = true -> o < o' -> o + h_blen h <= o') ->
+  forall freeb : Z -> bool,
+    (forall p, freeb p = true <-> exists o, start o = true /\ o <= p < o + h_blen h) ->
+  forall h' toks tr,
+    sums <> [] -> 0 < lenZ target ->
+    send_one H seed chunk h sums target = SOk h' toks tr ->
+    lits toks <= nfz freeb (lenZ target).
+Proof. exact send_one_lits. Qed.
+
+(** The edit bound.  The receiver holds [basis] and sent its block sums; the
+    new file is [build basis ps], a sequence of new bytes ([Ins]) and unedited
+    stretches basis[c, c+L) ([Copy c L]) — e insertions, deletions,
+    replacements or block moves at arbitrary unaligned offsets give at most
+    e + 1 stretches.  The literal data sent is at most the new bytes plus
+    2 * (blen - 1) per stretch. *)
+Theorem edit_bound :
+  forall (H : list Z -> list Z) seed chunk, 1 <= chunk ->
+  forall h sums basis,
+    0 < lenZ basis -> 1 <= h_blen h ->
+    h_count h = (lenZ basis + (h_blen h - 1)) / h_blen h ->
+    h_rem h = lenZ basis mod h_blen h ->
+    (forall j, 0 <= j < h_count h ->
+       nth_error sums (Z.to_nat j) = Some (checksum1 (blk basis h j), strong H seed h (blk basis h j))) ->
+  forall ps, Forall (piece_ok basis) ps -> 0 < lenZ (build basis ps) ->
+  forall h' toks tr,
+    no_accident H seed h sums basis ps ->
+    send_one H seed chunk h sums (build basis ps) = SOk h' toks tr ->
+    lits toks <= ins_bytes ps + 2 * (h_blen h - 1) * copies ps.
+Proof. exact edit_bound_script. Qed.
+
+(** Non-vacuity: a 24-byte file, block length 4; nine bytes kept, four
+    replaced by two new ones at the unaligned offset 9, the rest kept.  The
+    hypotheses hold ([no_accident] by enumeration of every offset and block)
+    and the model sender under MD4 sends 6 literal bytes; the bound is 14. *)
+Definition eb_basis : list Z :=
+  [11; 200; 37; 4; 150; 66; 7; 98; 19; 210; 31; 142; 53; 164; 75; 186; 97; 8; 119; 230; 41; 252; 63; 174].
+Definition eb_h : sum_head := mkHead 6 4 16 0.
+Definition eb_sums : list sumbuf :=
+  map (fun j => (checksum1 (blk eb_basis eb_h j), strong md4 5 eb_h (blk eb_basis eb_h j))) [0; 1; 2; 3; 4; 5].
+Definition eb_script : list piece := [Copy 0 9; Ins [250; 251]; Copy 13 11].
+Example edit_bound_hypotheses :
+  Forall (piece_ok eb_basis) eb_script /\ no_accident md4 5 eb_h eb_sums eb_basis eb_script /\
+  (forall j, 0 <= j < h_count eb_h ->
+     nth_error eb_sums (Z.to_nat j) = Some (checksum1 (blk eb_basis eb_h j), strong md4 5 eb_h (blk eb_basis eb_h j))).
+Proof.
+  split.
+  { apply Forall_cons; [|apply Forall_cons; [exact I|apply Forall_cons; [|apply Forall_nil]]];
+      unfold piece_ok; change (lenZ eb_basis) with 24; lia. }
+  split; [apply no_accident_by_check; vm_compute; reflexivity|].
+  intros j Hj. change (h_count eb_h) with 6 in Hj.
+  assert (E : j = 0 \/ j = 1 \/ j = 2 \/ j = 3 \/ j = 4 \/ j = 5) by lia.
+  destruct E as [->|[->|[->|[->|[->| ->]]]]]; vm_compute; reflexivity.
+Qed.
+Example edit_bound_example :
+  exists tr, send_one md4 5 262144 eb_h eb_sums (build eb_basis eb_script) =
+             SOk eb_h [Ref 0; Ref 1; Lit [19; 250; 251; 164; 75; 186]; Ref 4; Ref 5] tr
+  /\ ins_bytes eb_script + 2 * (h_blen eb_h - 1) * copies eb_script = 14.
+Proof. eexists. split; vm_compute; reflexivity. Qed.
+
 Print Assumptions weak_checksum_spec.
 Print Assumptions rolling_invariant.
 Print Assumptions no_false_negative.
 Print Assumptions identical_costs_nothing.
 Print Assumptions sender_total.
+Print Assumptions literal_bound_by_uncovered.
+Print Assumptions edit_bound.
